@@ -145,6 +145,56 @@ pub fn insert_markers(m: &mut walrus::Module, seed: u64) -> u64 {
     n
 }
 
+/// Edit through the public API: an active data segment, an active element segment, exports and a start
+/// function that the input did not have. Returns a description of what was added.
+pub fn add_roots(m: &mut walrus::Module, seed: u64) -> String {
+    use walrus::ir::Value;
+    use walrus::{ConstExpr, DataKind, ElementItems, ElementKind, ExportItem};
+    let mut rng = wv_gen::rng::Rng::new(seed);
+    let mut what = Vec::new();
+    let mems: Vec<(walrus::MemoryId, bool)> = m.memories.iter().map(|x| (x.id(), x.memory64)).collect();
+    if !mems.is_empty() && rng.chance(3, 4) {
+        let (mem, is64) = mems[rng.usize(mems.len())];
+        let at = rng.below(24) as i64;
+        let offset = ConstExpr::Value(if is64 { Value::I64(at) } else { Value::I32(at as i32) });
+        let id = m.data.add(DataKind::Active { memory: mem, offset }, vec![0xA5, 0x5A, at as u8, 0]);
+        // the per-memory list is public bookkeeping that a caller may or may not keep up to date
+        if rng.bool() {
+            m.memories.get_mut(mem).data_segments.insert(id);
+        }
+        what.push("active-data");
+    }
+    let tabs: Vec<(walrus::TableId, bool)> = m.tables.iter().filter(|t| t.element_ty == walrus::RefType::Funcref).map(|t| (t.id(), t.table64)).collect();
+    let funcs: Vec<walrus::FunctionId> = m.funcs.iter().map(|f| f.id()).collect();
+    if !tabs.is_empty() && !funcs.is_empty() && rng.chance(3, 4) {
+        let (t, is64) = tabs[rng.usize(tabs.len())];
+        let f = funcs[rng.usize(funcs.len())];
+        let offset = ConstExpr::Value(if is64 { Value::I64(0) } else { Value::I32(0) });
+        let id = m.elements.add(ElementKind::Active { table: t, offset }, ElementItems::Functions(vec![f]));
+        m.tables.get_mut(t).elem_segments.insert(id);
+        what.push("active-elem");
+    }
+    let exported: std::collections::HashSet<walrus::FunctionId> = m.exports.iter().filter_map(|e| if let ExportItem::Function(f) = e.item { Some(f) } else { None }).collect();
+    let unexported: Vec<walrus::FunctionId> = funcs.iter().copied().filter(|f| !exported.contains(f)).collect();
+    if !unexported.is_empty() && rng.chance(1, 2) {
+        m.exports.add("wv_root_f", unexported[rng.usize(unexported.len())]);
+        what.push("export-func");
+    }
+    let globals: Vec<walrus::GlobalId> = m.globals.iter().map(|g| g.id()).collect();
+    if !globals.is_empty() && rng.chance(1, 3) {
+        m.exports.add("wv_root_g", globals[rng.usize(globals.len())]);
+        what.push("export-global");
+    }
+    if m.start.is_none() && rng.chance(1, 4) {
+        let cands: Vec<walrus::FunctionId> = m.funcs.iter().filter(|f| { let t = m.types.get(f.ty()); t.params().is_empty() && t.results().is_empty() }).map(|f| f.id()).collect();
+        if !cands.is_empty() {
+            m.start = Some(cands[rng.usize(cands.len())]);
+            what.push("start");
+        }
+    }
+    what.join(",")
+}
+
 fn log_probe(rec: &mut Rec, label: &str, out: &Arc<Mutex<ProbeOut>>) {
     let o = out.lock().unwrap();
     rec.push_n(&format!("ct.calls.{}", label), o.transform_calls);
@@ -208,6 +258,10 @@ pub fn run(input: &[u8], scn: &str, rec: &mut Rec) {
             p.module.globals.get_mut(g).name = Some("wv_added_g".into());
             p.module.tables.get_mut(t).name = Some("wv_added_t".into());
             p.module.memories.get_mut(m).name = Some("wv_added_m".into());
+            // a tool recording itself after walrus did (walrus is then no longer the last processed-by value)
+            p.module.producers.add_processed_by("wv-tool", "1.0");
+            p.module.producers.add_language("wv-lang", "7");
+            p.module.producers.add_sdk("wv-sdk", "0.1");
         });
         if let Err(pan) = r {
             rec.push_s("panic.addimp", &pan);
@@ -286,6 +340,17 @@ pub fn run(input: &[u8], scn: &str, rec: &mut Rec) {
             Err(pan) => rec.push_s("panic.gc.parse", &pan),
             Ok(Err(e)) => rec.push_s("err.gc.parse", &e),
             Ok(Ok(mut p2)) => {
+                if o.has("addroots") {
+                    // new roots made through the public API before the pass runs; the module as it stands
+                    // after the edit ("pre") is the reference the pass is judged against
+                    match guarded(|| add_roots(&mut p2.module, wv_gen::rng::fnv64(input) ^ 0xADD2)) {
+                        Ok(what) => rec.push_s("addroots", &what),
+                        Err(pan) => rec.push_s("panic.addroots", &pan),
+                    }
+                    if emit_into(rec, "pre", &mut p2.module).is_none() {
+                        return;
+                    }
+                }
                 let pr = if probe { Some(attach_probe(&mut p2, if o.has("roots") { Some((input, &mut *rec)) } else { None })) } else { None };
                 match guarded(|| walrus::passes::gc::run(&mut p2.module)) {
                     Err(pan) => rec.push_s("panic.gc.run", &pan),
